@@ -76,6 +76,11 @@ class Check:
         if not cond:
             raise astdb.AnalysisBroken(msg)
 
+    def unlisted_violations(self):
+        known = [k for k in load_known() if k.get('property') == self.pid and k.get('status', 'known') == 'known']
+        return [o for o in self.obligations if not o['ok'] and
+                not any(k.get('rule') == o['rule'] and k.get('site') == o['site'] for k in known)]
+
     # -- finish ------------------------------------------------------------------------
     def finish(self):
         counts = {}
